@@ -548,9 +548,11 @@ type Result struct {
 	Ver      int
 	// BodyVer != 0: the bytes delivered belong to another version than the one the headers name
 	BodyVer int
-	Body    []byte
-	Header  http.Header
-	Panic   interface{}
+	// WireCL the Content-Length header as it stood when the response header was written ("" if none)
+	WireCL string
+	Body   []byte
+	Header http.Header
+	Panic  interface{}
 }
 
 // Do runs one request through the middleware chain on the calling goroutine
@@ -632,6 +634,8 @@ func (w *World) DoBody(proc, disp, method, host, uri string, hdr http.Header, cs
 	if ri.dead {
 		return res
 	}
+	// the Content-Length that would have gone out on a socket: the one present when the status line was written
+	res.WireCL = rec.Result().Header.Get("Content-Length")
 	w.finish(ri, rec.Code, rec.Header(), rec.Body.Bytes(), res)
 	return res
 }
